@@ -10,6 +10,19 @@ TRUST = ("z3 5.1.0 (thorough tier cross-checks every decided query with cvc5 1.4
          "semantics of the kernels; the stubs listed in the evidence file")
 
 CHECKS = {
+    "C05": dict(
+        text="Mellin-scalar operator model: ScaleVariations.operators is pre-populated with 1x1 symbolic matrices (composite labels "
+             "= the products they name) so the real compute_raw skips the quadrature; the real ScaleVariations.*, "
+             "sector_mapping, eko projectors/beta and ESF.compute_local (incl. the intrinsic filter) then run on symbolic "
+             "central coefficients and parton weights. The emitted tensors are differentiated with a hand-written "
+             "flavour-basis DGLAP + beta-function oracle and z3 proves every monomial of dF/dln muF^2 (a_s^k, k<=min(pto,2)) "
+             "and dF/dln muR^2 (k<=pto) identically zero, nf 3..6, pto 1..3, four switch combinations; switched-off logs "
+             "vanish, other tensors unchanged; intrinsic channel emits no muF log. No test checks an RGE at all.",
+        note=TRUST + "; that the analytic kernels are the convolutions their labels name and that NLO splitting functions equal "
+             "the literature is outside; eko projector entries are read as the nearest simple rational (within 1e-12).",
+        technique="symbolic execution of the real scale-variation code on symbolic Mellin moments + z3 polynomial identity (RGE residuals)",
+        design="§4 C05",
+    ),
     "C01": dict(
         text="Part A: the real conv.convolution / quad_ker_* run on a GENERIC distribution (uninterpreted R(z), S(z), L(x); all 8 "
              "shapes), a generic basis function with symbolic area borders (log and linear) and symbolic x; all feasible paths "
